@@ -1,8 +1,7 @@
 (** The query over all time (the query API's default bounds time.Unix(0,0) .. time.Unix(MaxInt64,0)) on a
     well-formed variable-length file state whose files are dated 1970 or later returns every stored
     record, in file/slot/tick order — provided the second-stage buffer does not panic.
-    (The upper bound wraps to a negative internal second; the result is complete only because
-    trimResultsToRange leaves it uncut when no row is <= End: see notes/C11.md.) *)
+    (The upper bound wraps to a negative internal second; Query.SetEnd replaces it by MaxTime.) *)
 From Coq Require Import ZArith List Bool Lia Sorting.Sorted Permutation.
 From Coq.Strings Require Import Byte.
 Import ListNotations.
@@ -17,10 +16,12 @@ Definition q0 : qtime := (0, 0).
 Lemma all_start_q : all_start = q_go q0. Proof. reflexivity. Qed.
 Lemma q0_sane : sane_time q0 = true. Proof. reflexivity. Qed.
 Lemma q0_year : qyr q0 = 1970. Proof. reflexivity. Qed.
-Lemma all_end_year16 : wrap I16 (t_year all_end) = 32548. Proof. vm_compute. reflexivity. Qed.
+Definition all_end' : gtime := clamp_end all_end.
+Lemma all_end_clamped : all_end' = planner_MaxTime. Proof. vm_compute. reflexivity. Qed.
+Lemma all_end_year16 : wrap I16 (t_year all_end') = 30579. Proof. vm_compute. reflexivity. Qed.
 
 Lemma plan_file_all tf r y : tf_ok tf -> 8 <= r <= 65536 -> 1970 <= y <= 9999 ->
-  plan_file tf r all_start all_end y =
+  plan_file tf r all_start all_end' y =
   Some (Headersize + (plan_first tf q0 y - 1) * r,
         (let c := nslots tf y - plan_first tf q0 y + 1 in if nslots tf y + 1 <? c then nslots tf y + 1 else c) * r).
 Proof.
@@ -30,8 +31,8 @@ Proof.
   destruct (nslots_mul tf y T) as [_ Rn].
   unfold plan_file. rewrite Ys, all_end_year16.
   rewrite (wrap_small I16 1970) by (unfold in_ity, ity_min, ity_max; cbn [ity_signed ity_bits]; norm_pows; lia).
-  replace ((1970 <=? y) && (y <=? 32548)) with true by (symmetry; apply andb_true_iff; rewrite !Z.leb_le; lia).
-  replace (y =? 32548) with false by (symmetry; apply Z.eqb_neq; lia).
+  replace ((1970 <=? y) && (y <=? 30579)) with true by (symmetry; apply andb_true_iff; rewrite !Z.leb_le; lia).
+  replace (y =? 30579) with false by (symmetry; apply Z.eqb_neq; lia).
   unfold TimeToOffset. rewrite IndexToOffset_sane by lia. rewrite file_size_sane by (assumption || lia).
   unfold plan_first. rewrite q0_year.
   set (ps := TimeToIndex (q_go q0) tf) in *. set (n := nslots tf y) in *.
@@ -58,7 +59,7 @@ Qed.
 
 (** the scan of the all-time query keeps every well-placed occupied slot *)
 Lemma scan_file_all b f : wf_bucket b = true -> wf_file b f = true -> 1970 <= y_year f ->
-  scan_file (b_tf b) (b_reclen b) all_start all_end f = y_slots f.
+  scan_file (b_tf b) (b_reclen b) all_start all_end' f = y_slots f.
 Proof.
   intros W Wf Hy70. pose proof (wf_bucket_tf b W) as T. pose proof (wf_bucket_reclen b W) as Hr.
   destruct (wf_file_spec b f Wf) as (Hy & _ & Fs).
@@ -82,7 +83,7 @@ Qed.
 
 Lemma var_candidates_all b c : wf_bucket b = true ->
   Forall (fun f => 1970 <= y_year f) (b_files b) ->
-  var_candidates b all_start all_end = Ok c -> c = var_rows_all b.
+  var_candidates b all_start all_end' = Ok c -> c = var_rows_all b.
 Proof.
   intros W Fy H. unfold var_candidates in H. apply read_var_files_ok in H. rewrite H.
   unfold var_rows_all. pose proof (wf_bucket_files b W) as Ff. rewrite Forall_forall in Ff, Fy.
@@ -93,24 +94,20 @@ Proof.
   intros sl Ws. now destruct (wf_slot_pos b _ sl Ws) as (_ & _ & Ho).
 Qed.
 
-(** every sane row is after the wrapped upper bound, in Go's order *)
-Lemma row_after_all_end r : sane_row r = true -> t_le (row_time r) all_end = false.
+(** every sane row is before MaxTime, in Go's order *)
+Lemma row_before_max r : sane_row r = true -> t_le (row_time r) all_end' = true.
 Proof.
   intros S. destruct (sane_row_spec r S) as [S1 S2]. unfold row_time. rewrite (go_unix_wide _ _ S1 S2).
-  destruct (t_le _ all_end) eqn:E; [|reflexivity]. exfalso.
-  apply t_le_spec in E. unfold tleP in E. cbn [g_ext g_ns] in E.
-  change (g_ext all_end) with (-9223371974719179009) in E.
+  rewrite all_end_clamped. apply t_le_spec. unfold tleP. cbn [g_ext g_ns].
+  change (g_ext planner_MaxTime) with 9223372036854775807.
   unfold sane_sec, sane_ns, nsPerSec, unixToInternal in *.
   change (2 ^ 62) with 4611686018427387904 in S1. change (2 ^ 31) with 2147483648 in S2.
   assert (-3 <= r_ns r / 1000000000 <= 3) by (Z.div_mod_to_equations; lia). lia.
 Qed.
 
-Lemma drop_rows_all s rows : Forall (fun r => t_ge (row_time r) s = true) rows -> drop_rows s rows = rows.
-Proof. intros F. destruct rows as [|r rest]; [reflexivity|]. inversion F; subst. cbn [drop_rows]. now rewrite H1. Qed.
-
 Theorem query_all_rows b :
   wf_bucket b = true -> b_var b = true -> Forall (fun f => 1970 <= y_year f) (b_files b) ->
-  (exists c, var_candidates b all_start all_end = Ok c /\ Z.of_nat (length c) <= maxInt32) ->
+  (exists c, var_candidates b all_start all_end' = Ok c /\ Z.of_nat (length c) <= maxInt32) ->
   exec_query b all_start all_end = Ok (enc_rows (var_rows_all b))
   /\ sorted_tns (var_rows_all b) = true.
 Proof.
@@ -120,7 +117,7 @@ Proof.
   fold (var_rows_all b) in Srt, Good. split; [|exact Srt].
   assert (Q : queryable_tf (b_tf b) =? b_tf b = true).
   { unfold wf_bucket in W. rewrite !andb_true_iff in W. tauto. }
-  unfold exec_query, read_bucket. rewrite Q, V. unfold read_var. rewrite Ec. cbn [bindR]. f_equal.
+  unfold exec_query, read_bucket. rewrite Q, V. fold all_end'. unfold read_var. rewrite Ec. cbn [bindR]. f_equal.
   pose proof (wf_bucket_vrl b W V) as Hv.
   set (rows := var_rows_all b) in *.
   set (plen := (Z.to_nat (b_vrl b) - 4)%nat) in *.
@@ -128,27 +125,23 @@ Proof.
   assert (Fwf : Forall (wf_row plen) rows) by (eapply Forall_impl; [|exact Good]; intros r [A _]; exact A).
   assert (Fsane : Forall (fun r => sane_row r = true) rows) by (eapply Forall_impl; [|exact Good]; intros r [_ A]; exact A).
   rewrite Erl, (trim_range_refines plen _ _ rows Fwf).
-  (* trimResultsToRange keeps everything: every row is >= Start, none is <= End *)
-  assert (Et : trim_rows all_start all_end rows = rows).
-  { assert (Fge : Forall (fun r => t_ge (row_time r) all_start = true) rows).
-    { (* rows are dated 1970 or later *)
-      apply Forall_forall. intros r Hr. unfold rows, var_rows_all in Hr.
-      apply in_flat_map in Hr as (f & Hf & Hr).
-      pose proof (wf_bucket_files b W) as Ff. rewrite Forall_forall in Ff, Fy.
-      destruct (file_rows b f occupied W V (Ff f Hf)) as (_ & B & G). cbv zeta in B, G.
-      rewrite Forall_forall in B, G. specialize (B r Hr). destruct (G r Hr) as [_ Sr].
-      destruct (sane_row_spec r Sr) as [S1 S2].
-      rewrite t_ge_le, all_start_q. unfold q_go, row_time. cbn [fst snd q0].
-      rewrite (t_le_tns 0 0 (r_sec r) (r_ns r)); [| unfold sane_sec; change (2 ^ 62) with 4611686018427387904; lia
-                                                  | unfold sane_ns; change (2 ^ 31) with 2147483648; lia | exact S1 | exact S2].
-      apply Z.leb_le. change (tns 0 0) with 0. fold (row_tns r).
-      pose proof (year_start_mono 1970 (y_year f) (Fy f Hf)) as M. change (year_start_ns 1970) with 0 in M. lia. }
-    destruct rows as [|r0 rest] eqn:Er; [reflexivity|].
-    assert (G : guard_trim all_start all_end (r0 :: rest) = false).
-    { unfold guard_trim. rewrite (drop_rows_all _ _ Fge). apply row_after_all_end.
-      inversion Fsane; subst; assumption. }
-    destruct (trim_rows_outside_guard all_start all_end (r0 :: rest) (sorted_tns_rows _ Fsane Srt) G) as (A & _ & _).
-    rewrite A. now apply drop_rows_all. }
+  (* trimResultsToRange keeps everything: every row is >= Start and <= MaxTime *)
+  assert (Et : trim_rows all_start all_end' rows = rows).
+  { rewrite (trim_rows_filter _ _ rows (sorted_tns_rows _ Fsane Srt)). apply filter_all.
+    apply Forall_forall. intros r Hr. unfold in_range_row.
+    assert (Sr : sane_row r = true) by (rewrite Forall_forall in Fsane; now apply Fsane).
+    rewrite (row_before_max r Sr), andb_true_r.
+    (* rows are dated 1970 or later *)
+    unfold rows, var_rows_all in Hr. apply in_flat_map in Hr as (f & Hf & Hr).
+    pose proof (wf_bucket_files b W) as Ff. rewrite Forall_forall in Ff, Fy.
+    destruct (file_rows b f occupied W V (Ff f Hf)) as (_ & B & _). cbv zeta in B.
+    rewrite Forall_forall in B. specialize (B r Hr).
+    destruct (sane_row_spec r Sr) as [S1 S2].
+    rewrite t_ge_le, all_start_q. unfold q_go, row_time. cbn [fst snd q0].
+    rewrite (t_le_tns 0 0 (r_sec r) (r_ns r)); [| unfold sane_sec; change (2 ^ 62) with 4611686018427387904; lia
+                                                | unfold sane_ns; change (2 ^ 31) with 2147483648; lia | exact S1 | exact S2].
+    apply Z.leb_le. change (tns 0 0) with 0. fold (row_tns r).
+    pose proof (year_start_mono 1970 (y_year f) (Fy f Hf)) as M. change (year_start_ns 1970) with 0 in M. lia. }
   rewrite Et.
   unfold trim_limit. rewrite row_length_eq.
   rewrite (enc_rows_length plen _ Fwf), Nat.div_mul by lia.
@@ -189,7 +182,7 @@ Proof.
   assert (V : b_var (final_bucket encf decf tf plen clen hist) = true) by reflexivity.
   assert (Fy : Forall (fun f => 1970 <= y_year f) (b_files (final_bucket encf decf tf plen clen hist))).
   { apply forallb_Forall in Y. eapply Forall_impl; [|exact Y]. cbv beta. intros f Hf. now apply Z.leb_le. }
-  destruct (var_candidates (final_bucket encf decf tf plen clen hist) all_start all_end) as [c| |] eqn:Ec; try discriminate.
+  destruct (var_candidates (final_bucket encf decf tf plen clen hist) all_start (clamp_end all_end)) as [c| |] eqn:Ec; try discriminate.
   apply Z.leb_le in C.
   destruct (query_all_rows _ W V Fy (ex_intro _ c (conj Ec C))) as [Q S].
   split; [exact Q|]. split; [now apply final_rows|]. split; [exact S|]. now apply forallb_Forall.
